@@ -264,12 +264,15 @@ func isInputType(t types.Type, depth int) bool {
 
 func isInputConsumer(f *ssa.Function) bool {
 	sig := f.Signature
-	if sig.Results().Len() > 0 {
+	recvIsDecoder := sig.Recv() != nil && isInputType(sig.Recv().Type(), 0) && !isByteSlice(sig.Recv().Type())
+	if sig.Results().Len() > 0 && !recvIsDecoder {
 		r0 := sig.Results().At(0).Type()
 		if isAppendResult(r0) {
 			return false // append-style encoder
 		}
 	}
+	// (a method of a decoder wrapper that returns []byte — e.g. the re-marshaled
+	// payload of an expanded Any — still consumes decoder input)
 	if p := f.Parent(); p != nil {
 		// a closure inside an append-style encoder captures the output buffer, not input
 		outer := p
